@@ -385,8 +385,55 @@ func (fr *Frame) applyContract(st *State, sp *FuncSpec, fn *ssa.Function, sig *t
 	} else if fn != nil && !sp.Pure {
 		mods = r.eng.modsetFunc(fn, map[*ssa.Function]bool{})
 	}
+	refined := map[string][]string{} // heap name -> object expressions the modification is confined to
+	if sp.HasMod {
+		for _, m := range sp.Modifies {
+			i := strings.Index(m, " of ")
+			if i < 0 {
+				continue
+			}
+			one := &FuncSpec{Name: sp.Name, Pkg: sp.Pkg, Modifies: []string{strings.TrimSpace(m[:i])}, HasMod: true}
+			for h := range r.eng.declaredMods(one, nil) {
+				refined[h] = append(refined[h], strings.TrimSpace(m[i+4:]))
+			}
+		}
+	}
 	for _, h := range sortedKeys(mods) {
-		r.heapHavoc(st, h)
+		exprs, ok := refined[h]
+		if !ok {
+			r.heapHavoc(st, h)
+			continue
+		}
+		// frame: only the named objects change in this heap component
+		r.heapDeclare(h)
+		cur := r.heapGet(st, h)
+		okAll := true
+		for _, ex := range exprs {
+			se, err := parseSpecExpr(ex)
+			if err != nil {
+				okAll = false
+				break
+			}
+			tv, err := cx.expr(se)
+			if err != nil {
+				r.eng.specErrors = append(r.eng.specErrors, fmt.Sprintf("%s: modifies ... of %s: %v", sp.Name, ex, err))
+				okAll = false
+				break
+			}
+			ref := tv.S
+			if tv.Sort == SSlice {
+				ref = app("s_arr", tv.S)
+			}
+			sort := r.heapSort[h]
+			inner := strings.TrimSuffix(strings.TrimPrefix(sort, "(Array Int "), ")")
+			nv := r.declare("modof", inner)
+			cur = app("store", cur, ref, nv)
+		}
+		if okAll {
+			r.heapSet(st, h, cur)
+		} else {
+			r.heapHavoc(st, h)
+		}
 	}
 	if !sp.Pure {
 		nf := r.declare("frontier", SInt)
